@@ -265,6 +265,8 @@ def models_agree(ctx: Ctx, nmax):
 # ------------------------------------------------------------------ instances
 KIND_TEXT = {
     "crash": "construction fails with an internal error",
+    "rejected": "a valid input (finite non-negative distances, power in "
+                "(0, 100), horizon >= 1) is refused",
     "n": "number of kept objects differs from the merge model",
     "tags": "tags do not list every original object with its representative",
     "distances": "distance between positions i, j is not |i - j|",
@@ -428,17 +430,12 @@ def explore_instances(ctx: Ctx, name, alphabet, lengths, dnames, powers,
     for st in sorted(best):
         report_inst(ctx, st, *best[st])
     if rejected:
+        # every member of the alphabet lies inside the documented parameter
+        # domains (finite distances >= 0, power in (0, 100), horizon >= 1),
+        # so a refusal leaves the statement without an instance to hold for
         fr = min((r[7] for r in out if r[7] is not None),
                  key=lambda t: (len(t[0]), t[0]))
-        ctx.log(f"  first rejected input: {fr}")
-        ctx.part(name, first_rejected=list(map(str, fr)))
-        if rejected == cnt:
-            ctx.violation(
-                "order1d|every input of the alphabet is rejected",
-                f"from_sequence_and_distance rejects all {cnt} inputs, "
-                f"e.g. {fr}",
-                dict(kind="instance", values=list(fr[0]), dist=fr[1],
-                     power=fr[2], horizon=fr[3]))
+        report_inst(ctx, "rejected", *fr)
     return outcomes
 
 
